@@ -358,6 +358,10 @@ def coq_examples(names):
     out.append("Lemma ex_rex_order_refuted : denote bucket M64 [72; 54; 103; 173] = [] /\\\n  fst (judge bucket wbucket row_of M64 %s [OReg 4 0; OMem 8 3 3 6 0 0 0 0 0] %s [54; 103; 72; 173]) = 0.\nProof. vm_compute. auto. Qed.\n" % (nid["lods"], d0))
     out.append("(* mov [0x1000], ah took the moffs shortcut of AL: A2 00 10 00 00 is mov [0x1000], al *)")
     out.append("Lemma ex_mov_ah_moffs_refuted :\n  fst (judge bucket wbucket row_of M32 %s [OMem 1 0 0 0 0 0 0 4096 0; OReg 16 0] %s [162; 0; 16; 0; 0]) = 2 /\\\n  fst (judge bucket wbucket row_of M32 %s [OMem 1 0 0 0 0 0 0 4096 0; OReg 1 0] %s [162; 0; 16; 0; 0]) = 0.\nProof. vm_compute. auto. Qed.\n" % (nid["mov"], d0, nid["mov"], d0))
+    out.append("(* frame: the reading of 48 01 C8 is unchanged by whatever follows it in the buffer (also by bytes that are prefixes, VEX lead bytes or FWAIT) *)")
+    out.append("Lemma ex_frame_add : map (fun c => match c with (rid, _, _, len) => (rid, len) end) (denote2 bucket wbucket M64 [72; 1; 200]) =\n"
+               "  map (fun c => match c with (rid, _, _, len) => (rid, len) end) (denote2 bucket wbucket M64 [72; 1; 200; 196; 98; 155; 240; 102]) /\\\n"
+               "  length (denote2 bucket wbucket M64 [72; 1; 200]) = 1%nat.\nProof. vm_compute. split; reflexivity. Qed.\n")
     if "fstsw" in names:
         out.append("Definition id_fstsw : Z := %d." % names.index("fstsw"))
         out.append("(* x87 wait forms: fstsw [eax] = 9B DD 38 (FWAIT + fnstsw); a segment override belongs AFTER the 9B (before it, it is FWAIT's) *)")
@@ -377,7 +381,7 @@ def coq_text(rows, names=None):
     out = []
     out.append("(* GENERATED by tools/c01_db.py from db/isa_x86.json (expanded by the repository's db/index.js). Do not edit.\n"
                "   %d expanded forms, %d supported by the structural decoder (the others are counted in the evidence). *)" % (len(rows), len(sup)))
-    out.append("From Coq Require Import ZArith List Bool.\nFrom Verif Require Import X86.X86Model X86.X86Denote X86.X86DbCheck X86.X86Unique X86.X86UniqueProofs X86.X86JudgeProofs.\nImport ListNotations.\nLocal Open Scope Z_scope.\n")
+    out.append("From Coq Require Import ZArith List Bool.\nFrom Verif Require Import X86.X86Model X86.X86Denote X86.X86DbCheck X86.X86Unique X86.X86UniqueProofs X86.X86JudgeProofs X86.X86FrameProofs.\nImport ListNotations.\nLocal Open Scope Z_scope.\n")
     for r in sup:
         ops = "; ".join("mkO %d %d %s %d %d %d %d %s %s %s" % (d["kind"], d["cls"], zz(d["fixed"]), d["slot"], d["msz"], d["immoff"],
                                                              d["immsz"], zz(d["immval"]), zb(d["immsign"] == "signed"), zb(d["implicit"])) for d in r["ops"])
@@ -431,6 +435,8 @@ def coq_text(rows, names=None):
     out.append("Lemma db_wait_bucket_ok : forallb (fun r => existsb (fun r' => r_id r' =? r_id r) (wbucket (r_opc r))) db_wait_rows = true.\nProof. vm_cast_no_check (eq_refl true). Qed.\n")
     out.append("Lemma db_wait_row_of_ok : forallb (fun r => match row_of (r_id r) with Some r' => r_id r' =? r_id r | None => false end) db_wait_rows = true.\nProof. vm_cast_no_check (eq_refl true). Qed.\n")
     out.append("Lemma db_wait_bucket_sound : forallb (fun o => forallb (fun r => bucket_row_ok o r && existsb (fun r' => r_id r' =? r_id r) db_wait_rows) (wbucket o)) (zrange256) = true.\nProof. vm_cast_no_check (eq_refl true). Qed.\n")
+    out.append("(* frame: every legacy map-0 row with opcode C4 / C5 / 62 / 8F consumes a ModRM byte or an immediate, so no reading depends on a byte it does not consume (X86FrameProofs.denote2_frame_all) *)")
+    out.append("Lemma db_lookahead_safe : lookahead_safe bucket && lookahead_safe wbucket = true.\nProof. vm_cast_no_check (eq_refl true). Qed.\n")
     out.append("Definition db_count : Z := %d.\nLemma db_count_ok : Z.of_nat (length db_rows) = db_count.\nProof. vm_compute. reflexivity. Qed.\n" % len(sup))
     if names:
         nid = {n: i for i, n in enumerate(names)}
